@@ -7,6 +7,9 @@ pub mod util;
 pub mod callargs;
 pub mod bsys;
 pub mod universe;
+pub mod acceptor;
+pub mod mutate;
+pub mod pcompare;
 pub mod xs;
 pub mod checks;
 pub mod replay;
